@@ -232,7 +232,7 @@ def longest_path_lower_bound(n, edges):
 
 
 def check(case):
-    path = env.fresh_path(".itp")
+    path = env.fresh_path(".v2.final.itp" if case["n"] % 2 else ".itp")          # further dots in the name are legal
     with open(path, "w", newline="\r\n" if case.get("crlf") else None) as f:
         f.write(case["text"])
     return check_at(path, case)
